@@ -25,6 +25,17 @@ Ext == [k |-> "exit"]
 Ret(e) == [k |-> "return", e |-> e]
 Func(f, p, body) == [k |-> "func", f |-> f, p |-> p, body |-> body]
 
+CurDecl(c, v) == [k |-> "curdecl", c |-> c, v |-> v]
+CurUse(c, x) == [k |-> "curuse", c |-> c, x |-> x]
+CurDisp(c) == [k |-> "curdispose", c |-> c]
+TabDecl(t, v) == [k |-> "tabdecl", t |-> t, v |-> v]
+TabDisp(t) == [k |-> "tabdispose", t |-> t]
+Tab(t) == [k |-> "tab", t |-> t]
+
+\* cursors and temporary tables are block-scoped like variables
+Objs == { CurDecl("cur", 31), CurDecl("cur", 32), CurUse("cur", "@a"), CurDisp("cur"),
+          TabDecl("tt", 41), TabDecl("tt", 42), Pr(Tab("tt")), TabDisp("tt"), Pr(Vr("@a")) }
+
 \* atoms usable anywhere
 Basic == { VarS("@a", L(1)), VarS("@b", L(2)), VarS("@a", L(10)), SetS("@a", Add(Vr("@a"), L(1))), SetS("@b", Vr("@a")),
            Pr(Vr("@a")), Pr(Vr("@b")), Disp("@a"), Ext,
@@ -55,12 +66,19 @@ Sk7 == {<<Func("g", "@p", <<VarS("@i", L(0)), While(Lt(Vr("@i"), Vr("@p")), <<Se
           VarS("@a", L(0)), Pr(CallF("g", L(3))), Pr(CallF("g", L(1))),
           If1(Lt(L(0), L(1)), <<Func("h", "@q", <<Ret(Add(Vr("@q"), L(1)))>>), Pr(CallF("h", L(1)))>>), h2, Pr(CallF("h", L(1)))>> : h1 \in InLoop \ {Ext}, h2 \in Basic}
 
-Programs == Sk1 \cup Sk2 \cup Sk3 \cup Sk4 \cup Sk5 \cup Sk6 \cup Sk7
+\* objects declared outside and inside an IF branch (a branch made of object statements only), used after it
+Sk8 == {<<VarS("@a", L(0)), h1, If2(Lt(Vr("@a"), L(1)), <<h2, h3>>, <<h2>>), h4, CurUse("cur", "@a"), Pr(Vr("@a")), Pr(Tab("tt"))>> : h1, h2, h3, h4 \in Objs}
+\* ... inside a loop body (the loop block is cleared at every iteration) and inside a function called twice
+Sk9 == {<<VarS("@a", L(0)), VarS("@i", L(0)), h1, While(Lt(Vr("@i"), L(2)), <<SetS("@i", Add(Vr("@i"), L(1))), h2, h3>>), h4>> : h1, h2, h3, h4 \in Objs}
+Sk10 == {<<VarS("@a", L(0)), h1, Func("f", "@p", <<h2, h3, Ret(Vr("@a"))>>), Pr(CallF("f", L(1))), Pr(CallF("f", L(2))), h4>> : h1, h2, h3, h4 \in Objs}
+
+Programs == Sk1 \cup Sk2 \cup Sk3 \cup Sk4 \cup Sk5 \cup Sk6 \cup Sk7 \cup Sk8 \cup Sk9 \cup Sk10
 
 CONSTANT Fuel
 VARIABLE prog
 Init == prog \in Programs
 Next == UNCHANGED prog
-Emit == LET r == Run(prog, Fuel) IN r.end = "FUEL" \/ PrintT(<<"TRACE", ToJson([prog |-> prog, out |-> r.out, end |-> r.end])>>)
+Emit == LET r == Run(prog, Fuel)  r2 == RunNS(prog, Fuel, TRUE) IN
+        r.end = "FUEL" \/ PrintT(<<"TRACE", ToJson([prog |-> prog, out |-> r.out, end |-> r.end, out2 |-> r2.out, end2 |-> r2.end])>>)
 BalancedInv == LET r == Run(prog, Fuel) IN r.end = "FUEL" \/ r.depth = 1
 =============================================================================
